@@ -38,7 +38,7 @@ def pick_cands(p, n, rng):
     return set(cands)
 
 
-def run_family(rep, tier, replay, prop, mix, probes, quick, thorough, by_kinds=False, run_out=False):
+def run_family(rep, tier, replay, prop, mix, probes, quick, thorough, by_kinds=False, run_out=False, extra_cov=None):
     cfg = quick if tier == "quick" else thorough
     rng = random.Random(vlib.seed())
     own = sc.OWN[prop]
@@ -71,6 +71,11 @@ def run_family(rep, tier, replay, prop, mix, probes, quick, thorough, by_kinds=F
                 predictions[p.key] = sc.design_prediction(p, cands, 8, 1)
             hists, npairs = sc.gen_histories(p, cands, cfg["maxcmd"], cfg["maxbps"], cfg["nhist"], vlib.seed(), mix,
                                              maxbk=cfg.get("maxbk", 3))
+            if cfg.get("also_mixed"):
+                h2, n2 = sc.gen_histories(p, cands, cfg["maxcmd"], cfg["maxbps"], cfg["also_mixed"], vlib.seed() + 1, "all",
+                                          maxbk=cfg.get("maxbk", 3))
+                hists += h2
+                npairs += n2
             pairs_covered += npairs
             if not hists:
                 raise vlib.ToolError(f"{p.key}: TLC generated no usable history")
@@ -98,6 +103,8 @@ def run_family(rep, tier, replay, prop, mix, probes, quick, thorough, by_kinds=F
            "events_judged": events, "position_command_pairs_covered": pairs_covered, "distinct_observations": len(distinct), "samples": samples}
     if predictions:
         cov["design_level_prediction"] = predictions
+    if extra_cov:
+        cov.update(extra_cov)
     return rep.finish("model_checking", cov, assumptions=[
         "the reference execution is recorded by an independent ptrace single-stepper (harness/src/bin/reftrace.rs)",
         "line table decoded by llvm-dwarfdump; positions of real stops identified by (rip from /proc, the puppet's own TICK)",
@@ -141,8 +148,8 @@ def by_map(p, cands, k):
         elif mode == 2 and a in fn_at:
             name = p.funcs[fn_at[a] - 1][0]
             last = name.split("::")[-1]
-            if last.isidentifier() and sum(1 for f in p.funcs if f[0].split("::")[-1] == last) == 1:
-                m[a] = ("fn", last)
+            if last.isidentifier():
+                m[a] = ("fn", last)       # a generic selects every instantiation: the debugger's answer says which
     return m
 
 
@@ -190,6 +197,8 @@ def report(rep, prop, own, p, scr, evs, vs, info, build=None):
             if prop == "C01" and v["action"] not in sc.RUN_CMDS:
                 continue
             if prop == "C03" and v["action"] not in sc.STEP_CMDS:
+                continue
+            if prop == "C11" and v["action"] != "restart":
                 continue
         rep.mismatch(v["class"], v["action"], expected=v["expected"], actual=v["actual"], at_event=v["k"],
                      puppet=p.key, puppet_src=p.src.name, build=build or ["1.89", 0, True], script=scr,
